@@ -36,9 +36,15 @@ def mname(m):
     return ("quoted" if m[0] else "unquoted") + ("+strip_fragment" if m[1] else "")
 
 
+CTX = [None]
+
+
 def canon(fn, u, m):
     try:
-        return fn(u, quoted=m[0], strip_fragment=m[1])
+        r = fn(u, quoted=m[0], strip_fragment=m[1])
+        if CTX[0] is not None:
+            CTX[0].remember("ural.canonicalize_url:canonicalize_url", [u], {"quoted": m[0], "strip_fragment": m[1]}, r, cap=3000)
+        return r
     except Exception as e:
         return ("EXC", type(e).__name__, str(e)[:80])
 
@@ -232,6 +238,7 @@ def run(ctx):
     pr.watch("ural.utils:normpath", want_args=False)
     pr.watch("ural.canonicalize_url:canonicalize_url", want_args=False)
     pr.start()
+    CTX[0] = ctx
     rng = ctx.rng
     try:
         extra = [G.base_case(path=[["a b"], ["c%20d"]], query=[(["k k"], ["v%20v"])], fragment=["f f"]), G.base_case(user=["u u"], password=["p%20p"]),
